@@ -596,8 +596,10 @@ func genKey(r *hlib.Rng) []byte {
 }
 
 func genVal(r *hlib.Rng, k []byte) []byte {
-	if len(k) > 32 && r.Chance(1, 6) {
-		return r.Bytes(32) // hash-sized value under a long key: not confusable
+	if (len(k) > 32 && r.Chance(1, 6)) || r.Chance(1, 10) {
+		// hash-sized value, also under short keys (a leaf that shares its hash input
+		// with an inner node {height 0, size 1}: no restriction since the fix c3a108e)
+		return r.Bytes(32)
 	}
 	n := r.Range(0, 3)
 	if n == 0 && !r.Chance(1, 4) {
@@ -960,11 +962,14 @@ func malformed(r *hlib.Rng, honest []byte) []byte {
 	}
 }
 
-// ---- known finding 1: a leaf that reads as an inner node (LeafNode and InnerNode share one encoding)
+// ---- finding C03-leaf-inner-confusion (fixed in chain33 c3a108e): a leaf that reads as an inner
+// node (LeafNode and InnerNode share one encoding). Every probe of these streams must be REJECTED.
 
 // confuseHist: the tree holds a leaf (k0, v0) where one of k0 / v0 is the 32-byte leaf
 // digest of a pair (fk, fv) that is NOT in the tree; the forged proof puts a node
-// {height 0, size 1} in front of the honest path of k0.
+// {height 0, size 1} in front of the honest path of k0 (without the height test of
+// Proof.Verify the chain ends in the root). guarded: the same attempt on a tree whose
+// leaf cannot be read as an inner node (long key / long value).
 func confuseHist(r *hlib.Rng, variant int, nOther int, prefix bool, workdir string, guarded bool) *Hist {
 	h := &Hist{Kind: "confuse", Prefix: prefix}
 	if guarded {
@@ -1001,12 +1006,13 @@ func confuseHist(r *hlib.Rng, variant int, nOther int, prefix bool, workdir stri
 	pi, _, _ := decode(pr.proof)
 	h.Probes = append(h.Probes, ProbeIn{Op: "prove", Key: hx(k0)}, ProbeIn{Op: "prove", Key: hx(fk)})
 	vprobe(h, root, fk, fv, encodeNodes(append([]pnodeT{forged}, pi...)), "FORGED: pair not in the tree, leaf read as inner node")
-	if guarded {
-		// further attempts that must all fail
-		f2 := forged
-		f2.h = 1
-		vprobe(h, root, fk, fv, encodeNodes(append([]pnodeT{f2}, pi...)), "forged with height 1")
-	}
+	// further attempts that must all fail
+	f2 := forged
+	f2.h = 1
+	vprobe(h, root, fk, fv, encodeNodes(append([]pnodeT{f2}, pi...)), "forged with height 1")
+	f3 := forged
+	f3.h = -1
+	vprobe(h, root, fk, fv, encodeNodes(append([]pnodeT{f3}, pi...)), "forged with height -1")
 	return h
 }
 
@@ -1059,7 +1065,7 @@ func main() {
 	for i := 0; i < 24*mult; i++ {
 		emit("malformed", i, genBatches(r, 1, 1, 4), plan{proveN: 1, malformedN: 14})
 	}
-	// known finding 1 (unrestricted stream) and the same attempts on trees that satisfy the guard
+	// the forgeries of the fixed finding C03-leaf-inner-confusion, and the same attempts on trees without a confusable leaf
 	for i := 0; i < 6*mult; i++ {
 		runHist(o, confuseHist(r, i%2, []int{0, 0, 2, 5, 9, 14}[i%6], i%4 >= 2, workdir, false), workdir)
 	}
